@@ -37,6 +37,45 @@ def run(tier, seed):
             b.case(desc)
         except Exception as e:
             b.error(f"{name}: {type(e).__name__}: {e}")
+    # the same frame WITHOUT the memory guard's protection (mem_guard_off, no_autodiff: operands are writeable there, so an in-place write inside a
+    # forward pass goes through silently) and with non-finite values in the operands (+inf, a slice of -inf, nan), which steer kernels into
+    # their special-case branches
+    def variants(a):
+        yield "finite", a
+        if a.dtype.kind == "f" and a.size:
+            for nm, val in (("+inf", np.inf), ("-inf", -np.inf), ("nan", np.nan)):
+                v = a.copy()
+                v.flat[0] = val
+                yield f"one {nm}", v
+            if a.ndim >= 1 and a.shape[-1] > 1:
+                v = a.copy()
+                v[..., :] = np.where(np.arange(a.shape[-1]) >= 0, -np.inf, v) if a.ndim == 1 else v
+                if a.ndim >= 2:
+                    v[0, ...] = -np.inf
+                yield "a slice of -inf", v
+
+    modes = [("mem_guard_off", lambda: mg.mem_guard_off), ("no_autodiff", lambda: mg.no_autodiff)]
+    for (name, f, arrs, opts, sel) in cases(rng, tier):
+        if "setitem" in name or "[where,out]" in name or "out=" in name:
+            continue
+        for mode, ctxf in modes:
+            for vi, (vname, first) in enumerate(variants(np.array(arrs[0], copy=True)) if len(arrs) else []):
+                if tier == "quick" and vname not in ("finite", "a slice of -inf", "one nan") :
+                    continue
+                ops = [first] + [np.array(a, copy=True) for a in arrs[1:]]
+                snaps = [a.copy() for a in ops]
+                desc = dict(fn=name, opts={k: repr(v) for k, v in opts.items()}, shapes=[list(np.shape(a)) for a in arrs], mode=mode, values=vname)
+                try:
+                    with np.errstate(all="ignore"), ctxf():
+                        # arrays are handed over directly (and as tensors sharing them): the caller's own memory is at stake
+                        out = f(*[mg.tensor(a, copy=False, constant=(a.dtype.kind != "f") or None) for a in ops])
+                except Exception:
+                    continue  # the routine refuses these values / this mode: nothing was computed
+                b.count("forward frame without the guard")
+                for i, (a, s_) in enumerate(zip(ops, snaps)):
+                    if not np.array_equal(a, s_, equal_nan=True):
+                        b.fail(f"C12.ops.{name}.forward_mutates_operand", dict(desc, operand=i), f"forward changed an operand's contents: {s_.tolist()} -> {a.tolist()}")
+                b.case(desc)
     # index objects
     for ix in idx_objs:
         x = mg.tensor(rng.uniform(1, 2, size=(3, 2)))
